@@ -333,10 +333,22 @@ def _chains(fn: FuncInfo, expr: ast.AST, roots: set[str], depth: int = 0, seen: 
     return out
 
 
-def memo_key_rule(chk: Check, rule: str, fns: list[FuncInfo], suppress: dict[tuple[str, str], str | tuple[str, str]] | None = None, doc: str = "") -> None:
+def _module_level_dicts(mod: "Module") -> set[str]:  # type: ignore[name-defined]
+    """Names bound at module level to an (initially empty) dict: `X = {}`, `X: dict[...] = {}`, `X = dict()`, WeakKeyDictionary()."""
+    out: set[str] = set()
+    for st in mod.tree.body:
+        tgt = st.target if isinstance(st, ast.AnnAssign) else (st.targets[0] if isinstance(st, ast.Assign) and len(st.targets) == 1 else None)
+        val = getattr(st, "value", None)
+        if isinstance(tgt, ast.Name) and val is not None:
+            if (isinstance(val, ast.Dict) and not val.keys) or (isinstance(val, ast.Call) and (last_attr(val) or "") in ("dict", "WeakKeyDictionary", "WeakValueDictionary", "OrderedDict", "defaultdict") and not val.keywords):
+                out.add(tgt.id)
+    return out
+
+
+def memo_key_rule(chk: Check, rule: str, fns: list[FuncInfo], suppress: dict[tuple[str, str], str | tuple[str, str]] | None = None, doc: str = "", floor: int = 1) -> None:
     """For every explicit cache store `C[...][key] = value` / `cache.insert_x(key, value)` in `fns`: every parameter
     (attribute chain) the cached value is computed from must be part of the key."""
-    chk.rule(rule, doc or "MEMO-KEY: whatever a cached value is computed from (parameters, configuration fields) is part of its cache key", floor=1)
+    chk.rule(rule, doc or "MEMO-KEY: whatever a cached value is computed from (parameters, configuration fields) is part of its cache key", floor=floor)
     _CHAIN_PROJECT[0] = chk.project
     suppress = suppress or {}
     n = 0
@@ -351,7 +363,7 @@ def memo_key_rule(chk: Check, rule: str, fns: list[FuncInfo], suppress: dict[tup
             if isinstance(s, ast.Assign) and len(s.targets) == 1 and isinstance(s.targets[0], ast.Subscript):
                 tgt = s.targets[0]
                 base_txt = unparse(tgt.value, 200)
-                if "cache" not in base_txt.lower():
+                if "cache" not in base_txt.lower() and not (isinstance(tgt.value, ast.Name) and tgt.value.id in _module_level_dicts(fn.module)):
                     continue
                 keys: list[ast.expr] = [tgt.slice]
                 b: ast.AST = tgt.value
@@ -399,7 +411,10 @@ def memo_key_rule(chk: Check, rule: str, fns: list[FuncInfo], suppress: dict[tup
             missing = [d for d in missing if not any(k.split(".")[0] == d for k in key_chains if "." not in d)]
             # identity keys: an API operation is identified by its label within one schema (the caches looked at live on
             # the schema), so a key `<op>.label` covers everything read from `<op>`
-            ident = {k.rsplit(".", 1)[0] for k in key_chains if k.endswith(".label")}
+            tgt0 = site.targets[0] if isinstance(site, ast.Assign) else None
+            module_level = isinstance(tgt0, ast.Subscript) and isinstance(tgt0.value, ast.Name) and tgt0.value.id in _module_level_dicts(fn.module)
+            # (a module-level cache outlives the schema: labels of different schemas collide, so no identity there)
+            ident = set() if module_level else {k.rsplit(".", 1)[0] for k in key_chains if k.endswith(".label")}
             missing = [d for d in missing if not any(d == o or d.startswith(o + ".") for o in ident)]
             # key: the cache being written (module-level name / attribute), not the incidental local names
             tgt_ = site.targets[0] if isinstance(site, ast.Assign) else (site.value.func if isinstance(site, ast.Expr) else site)  # type: ignore[union-attr]
